@@ -1,11 +1,16 @@
 import AlatorVerif.Lemmas.NoLookahead
 import AlatorVerif.Lemmas.JuraDead
+import AlatorVerif.Lemmas.SrvNoLookInst
+import Mathlib.Data.Nat.Basic
 /-!
 # C01 — no look-ahead: an order never fills on the tick that admits it
 
 Exchange level (both exchanges): a tick matches the resting book *before* it admits the buffer, every
-fill is dated and priced from the quotes passed to that tick. Server level (Uist server model
-`PBk.Srv`): a fill is dated strictly after the clock at which its order was submitted.
+fill is dated and priced from the quotes passed to that tick. Server level: for **both** servers
+(`SV.App`, any number of backtests, every interleaving of requests) a fill is dated strictly after the
+clock at which its order's id was handed out, which is not before the clock at which it was submitted
+(`server_no_lookahead_any_history`, `uist_server_…`, `jura_server_…`); the older single-backtest
+statement on the broker-side server model `PBk.Srv` is kept (`server_fill_after_submission`).
 -/
 namespace C01
 
@@ -113,5 +118,77 @@ theorem server_fill_after_submission (g : GSrv σ α) (h : GInv g) (hwf : WFData
     ∃ j p dsub, o.id = some j ∧ g.adAt j = some p ∧ g.srv.dates[p]? = some dsub ∧ dsub < t.date :=
   fill_after_submission g h hwf hpos o ho t ht
 end Server
+
+section AnyServer
+open SV
+variable {E Q O A D R : Type} {X : ExchOps E Q O A D R}
+
+/-- **server level, any exchange meeting `IdSpec`, every history**: start from a server that holds any
+    datasets and no backtest; after any sequence of requests (creations, ticks, inserts, deletes, reads, on
+    any backtests, in any interleaving), consider a tick on a live backtest whose clock is still within
+    its dataset (`pos < N`: the client ticked only while `has_next` allowed), the dataset having strictly
+    increasing dates and quotes stored under their own date. Every fill of that tick belongs to an order
+    id that was handed out by an earlier tick, at a clock position `p` whose date is strictly before the
+    fill's date; and every order still in the buffer was submitted at a position `≤` the current one, so
+    ids are never handed out at a clock before the order's submission. -/
+theorem server_no_lookahead_any_history (S : IdSpec X) (ops : List (Op O A D)) (a0 : App E Q)
+    (h0 : ∀ i, a0.backtests i = none) (i : Nat) (adm : A) :
+    let g := (grun S {} a0 ops).1
+    let a := (run X a0 ops).2
+    ∀ bt ds q, a.backtests i = some bt → a.datasets bt.dataset = some ds → bt.pos < ds.dates.length →
+      ds.dates.Pairwise (· < ·) → ds.quotes bt.date = some q → S.Dated q bt.date →
+      (∀ f ∈ S.fills bt.exch q adm, ∃ p dsub, g.asg i f.1 = some p ∧ ds.dates[p]? = some dsub ∧ dsub < f.2)
+      ∧ (g.sub i).length = (S.buf bt.exch).length ∧ (∀ p ∈ g.sub i, p ≤ bt.pos) := by
+  intro g a bt ds q hb hd hpos hs hq hdat
+  have hinv : GInv S (grun S {} a0 ops).2 g := grun_inv S ops {} a0 (GInv.empty S a0 {} h0)
+  rw [grun_app] at hinv
+  exact ⟨tick_fills_after_assignment S a g hinv i adm bt ds q hb hd hpos hs hq hdat,
+    buffered_submitted_not_later S a g hinv i bt hb⟩
+
+/-- the Uist server: the fills are, in sequence, the trades the tick request returns -/
+theorem uist_server_no_lookahead {σ α : Type} [DecidableEq σ] [LinearOrder α] [Mul α]
+    (ops : List (Op (PU.Order σ α) (List (PU.Order σ α)) Nat)) (a0 : App (PU.Uist σ α) (UQ σ α))
+    (h0 : ∀ i, a0.backtests i = none) (i : Nat) (adm : List (PU.Order σ α)) :
+    let g := (grun uistSpec {} a0 ops).1
+    let a := (run uistOps a0 ops).2
+    ∀ bt ds q, a.backtests i = some bt → a.datasets bt.dataset = some ds → bt.pos < ds.dates.length →
+      ds.dates.Pairwise (· < ·) → ds.quotes bt.date = some q → (∀ sym qq, q sym = some qq → qq.date = bt.date) →
+      (∀ f ∈ uistFills bt.exch q, ∃ p dsub, g.asg i f.1 = some p ∧ ds.dates[p]? = some dsub ∧ dsub < f.2)
+      ∧ (uistFills bt.exch q).map (·.2) = ((uistOps.tick bt.exch q adm).2.1).map (·.date) := by
+  intro g a bt ds q hb hd hpos hs hq hdat
+  refine ⟨(server_no_lookahead_any_history uistSpec ops a0 h0 i adm bt ds q hb hd hpos hs hq hdat).1, ?_⟩
+  have hinv : GInv uistSpec (grun uistSpec {} a0 ops).2 g := grun_inv uistSpec ops {} a0 (GInv.empty _ a0 {} h0)
+  rw [grun_app] at hinv
+  exact uist_fills_are_the_trades bt.exch q adm (hinv.live i bt hb).2.1
+
+/-- the Jura server: the fills are those of the tick response, by order id and fill time -/
+theorem jura_server_no_lookahead {α : Type} [LinearOrder α] [Add α] [Sub α] [Mul α] [OfNat α 1] [OfScientific α]
+    (ops : List (Op (PJ.Order α) (List (PJ.Order α)) (Nat × Nat))) (a0 : App (PJ.Jura α) (JQ α))
+    (h0 : ∀ i, a0.backtests i = none) (i : Nat) (adm : List (PJ.Order α)) :
+    let g := (grun juraSpec {} a0 ops).1
+    let a := (run juraOps a0 ops).2
+    ∀ bt ds q, a.backtests i = some bt → a.datasets bt.dataset = some ds → bt.pos < ds.dates.length →
+      ds.dates.Pairwise (· < ·) → ds.quotes bt.date = some q → (∀ asset qq, q asset = some qq → qq.date = bt.date) →
+      ∀ f ∈ (juraOps.tick bt.exch q adm).2.1, ∃ p dsub, g.asg i f.oid = some p ∧ ds.dates[p]? = some dsub ∧ dsub < f.time := by
+  intro g a bt ds q hb hd hpos hs hq hdat f hf
+  exact (server_no_lookahead_any_history juraSpec ops a0 h0 i adm bt ds q hb hd hpos hs hq hdat).1
+    (f.oid, f.time) (List.mem_map.mpr ⟨f, hf, rfl⟩)
+
+/-! non-vacuity: two backtests on a two-date dataset; an order submitted on backtest 1 at date 10 is handed
+    its id at position 0 and fills on the next tick, dated 20; backtest 2 is ticked in between -/
+section
+def qx (d : Int) : UQ String Nat := fun s => if s = "A" then some ⟨1, 2, d⟩ else none
+def dsx : Dataset (UQ String Nat) := { dates := [10, 20], quotes := fun d => if d = 10 ∨ d = 20 then some (qx d) else none }
+def ax : App (PU.Uist String Nat) (UQ String Nat) :=
+  { backtests := fun _ => none, last := 0, datasets := fun n => if n = "D" then some dsx else none }
+def ox : PU.Order String Nat := ⟨none, .market, .buy, "A", 5, none⟩
+def opsx : List (Op (PU.Order String Nat) (List (PU.Order String Nat)) Nat) :=
+  [.init "D", .init "D", .insert 1 ox, .tick 2 [], .tick 1 [ox], .tick 2 []]
+example : ((run uistOps ax opsx).2.backtests 1).map (fun bt => (bt.pos, bt.date, uistFills bt.exch (qx 20)))
+    = some (1, 20, [(0, 20)]) := by decide
+example : (grun uistSpec {} ax opsx).1.asg 1 0 = some 0 := by decide
+example : dsx.dates[0]? = some 10 ∧ (10 : Int) < 20 := by decide
+end
+end AnyServer
 
 end C01
